@@ -92,3 +92,14 @@ Theorem C05_sublang_example :
   sub_prog [BNewStruct 0 0 1; BNewStruct 1 8 0; BSetUint 1 0 8 258; BSetPtr 0 0 1; BSetRoot 0] = true /\
   arena_spec_wf (ArRaw [24; 16]) /\ root_cap_ok (ArRaw [24; 16]).
 Proof. exact sublang_example. Qed.
+
+(* non-vacuity of the extended sub-language: NewCompositeList, List.Struct member used as data
+   and pointer container, PointerList.Set, typed setter on the composite list, SetRoot; all
+   premises of C05_heap_inv_sublang hold for this program and the computed verdicts agree *)
+Theorem C05_sublang_example2 :
+  create (ArMulti None) (init_rlimit (mkCfg 0 0 true true)) = Ok ex2_m /\
+  sub_prog ex2_ops = true /\
+  plain_run ex2_env ex2_st0 ex2_ops /\
+  Forall seg_bound (bstates ex2_env ex2_st0 ex2_ops) /\
+  map (fun st => valid_message (bm_data (w_dst (st_w st)))) (bstates ex2_env ex2_st0 ex2_ops) = repeat VOk 12.
+Proof. exact sublang_example2. Qed.
